@@ -57,7 +57,7 @@ def generated_corpus4():
 
 def generated_corpus5():
     seen, out = set(), []
-    for (src, fam) in progen.corpus5():
+    for (src, fam) in progen.corpus5() + progen.corpus6():
         if src not in seen:
             seen.add(src)
             out.append((oracles.sha(src), src, fam))
@@ -99,7 +99,7 @@ def pick(items, ctx, quick_n):
 
 
 def targeted():
-    """the family-targeted corpora (12 + 2 + 6 + 6 families, and the module-level twins): run in full in both tiers, so that no family depends on the slice"""
+    """the family-targeted corpora (12 + 2 + 6 + 6 + 3 families, and the module-level twins): run in full in both tiers, so that no family depends on the slice"""
     return generated_corpus2() + generated_corpus3() + generated_corpus4() + generated_corpus5() + twin_corpus()
 
 
